@@ -268,6 +268,22 @@ def _data_programs():
 
 DIRECTED += _data_programs()
 
+
+def _escape_programs():
+    """string escapes at and beyond their documented limits (\\u{..} takes 1-6 hex digits, \\x exactly 2)"""
+    out = []
+    for q in ('"', "'"):
+        for n in range(0, 10):
+            out.append("from t | derive x = %sa\\u{%s}b%s" % (q, "1234567890"[:n], q))
+            out.append("from t | derive x = %sa\\u{%s" % (q, "1234567890"[:n]))
+        for body in ("\\x", "\\x4", "\\x41", "\\x414", "\\xzz", "\\u", "\\u{", "\\u{}", "\\u{110000}", "\\u{d800}", "\\q", "\\"):
+            out.append("from t | derive x = %sa%sb%s" % (q, body, q))
+    out += ['from t | derive x = f"{a}\\u{1234567}"', 'from t | derive x = s"\\u{1234567}"', 'from t | derive x = r"\\u{1234567}"']
+    return out
+
+
+DIRECTED += _escape_programs()
+
 PUNCT = ["(", ")", "{", "}", "[", "]", "|", ",", "=", "==", "->", "=>", "..", "-", "+", "*", "!", "??", ".", ":", "@", "\"", "'", "`", "\\", "\n", "s\"", "f\"", "$1", "#", "0x", "1e", "_"]
 MULTI = ["é", "€", "😀", "\u2028", "ß", "中", "\u0301", "\ufeff", "\x00", "\x7f", "\u200b"]
 
